@@ -258,6 +258,23 @@ end
 def namesOK (m : Model) : Bool :=
   m.types.all (fun td => td.rels.all (fun rd => rd.name ≠ "" && refsOK rd.rewrite))
 
+/-- no intersection without operands (`GetChild()[0]` would panic; rejected by model validation) -/
+mutual
+def intersOK : Rewrite → Bool
+  | .this => true
+  | .computed _ => true
+  | .ttu _ _ => true
+  | .union cs => intersOKList cs
+  | .inter cs => !cs.isEmpty && intersOKList cs
+  | .diff b s => intersOK b && intersOK s
+def intersOKList : List Rewrite → Bool
+  | [] => true
+  | c :: cs => intersOK c && intersOKList cs
+end
+
+def wellFormed (m : Model) : Bool :=
+  namesOK m && m.types.all (fun td => td.rels.all (fun rd => intersOK rd.rewrite))
+
 /-! ## §2 the reverse expansion as a worklist, every schedule -/
 
 structure Graph (N : Type) where
